@@ -219,8 +219,8 @@ def find_record_hook(it, fv, args, kwargs):
 
 @contract
 class JolietName(Base):
-    """C13/joliet + C09/name: a Joliet name longer than 64 (UTF-8 bytes, the documented limit) is refused with InvalidInput;
-    an accepted name is recorded as exactly its UTF-16BE encoding - never truncated or mangled - and fits the 128-byte
+    """C13/joliet + C09/name: a Joliet name longer than 64 (UTF-8 bytes, the documented limit) or EMPTY (a path that names the
+    root directory itself: '/', '/.', '/d/..' after normalisation) is refused with InvalidInput; an accepted name is recorded as exactly its UTF-16BE encoding - never truncated or mangled - and fits the 128-byte
     Joliet identifier; the parent looked up is the directory part of the path"""
     target = 'pycdlib.pycdlib.PyCdlib._joliet_name_and_parent_from_path'
     namelen = 5
@@ -249,10 +249,10 @@ class JolietName(Base):
         return len(self.concrete.encode('utf-8')) if self.concrete is not None else self.namelen
 
     def raises(self, c, a):
-        return {'PyCdlibInvalidInput': self.nbytes() > 64}
+        return {'PyCdlibInvalidInput': self.nbytes() > 64 or self.nbytes() == 0}
 
     def expected_covers(self):
-        return ('raise:PyCdlibInvalidInput',) if self.nbytes() > 64 else ('return',)
+        return ('raise:PyCdlibInvalidInput',) if (self.nbytes() > 64 or self.nbytes() == 0) else ('return',)
 
     def post(self, c, a, out):
         name16, parent = out.result
@@ -266,6 +266,52 @@ class JolietName(Base):
         cl = {'utf16be-of-the-given-name': Eq(name16, want), 'fits-128-bytes': len(name16) <= 128, 'parent-is-the-looked-up-directory': parent is a.parent}
         if c.symbolic:
             cl['looked-up-the-directory-part'] = Eq(c.p.ghost.get('lookup_path'), b'/D')
+        return cl
+
+    def observe(self, c, a, out):
+        return {'kind': out.kind, 'exc': out.exc}
+
+
+def find_udf_record_hook(it, fv, args, kwargs):
+    it.ctx.ghost['lookup_path'] = args[1]
+    return (None, it.ctx.ghost['lookup_result'])
+
+
+@contract
+class UDFName(Base):
+    """C13/udf: the name of a new UDF entry is the last component of the path, byte for byte, looked up under its directory part; a
+    path whose last component is empty (it names the root directory: '/', '/.', '/d/..' after normalisation) is refused with
+    InvalidInput instead of creating an entry without a name"""
+    target = 'pycdlib.pycdlib.PyCdlib._udf_name_and_parent_from_path'
+    namelen = 5
+    hooks = {'pycdlib.pycdlib.PyCdlib._find_udf_record': find_udf_record_hook}
+
+    def setup(self, c):
+        a = c.a
+        a.name = c.bytes('name', self.namelen)
+        for x in V.items_of(a.name):
+            c.assume(And(x >= 32, x < 127, x != 47))
+        a.path = V.mk_bytes([47, 100, 47] + V.items_of(a.name))      # b'/d/' + name
+        a.parent = c.obj('pycdlib.udf.UDFFileEntry', _initialized=True)
+        a.self = c.obj('pycdlib.pycdlib.PyCdlib', _initialized=True)
+        if c.symbolic:
+            c.p.ghost['lookup_result'] = a.parent
+        else:
+            parent = a.parent
+            self.real_hooks = {'pycdlib.pycdlib.PyCdlib._find_udf_record': lambda _s, p: (None, parent)}
+        return Call([a.path], self_obj=a.self)
+
+    def raises(self, c, a):
+        return {'PyCdlibInvalidInput': self.namelen == 0}
+
+    def expected_covers(self):
+        return ('raise:PyCdlibInvalidInput',) if self.namelen == 0 else ('return',)
+
+    def post(self, c, a, out):
+        name, parent = out.result
+        cl = {'the-given-name': Eq(name, a.name), 'parent-is-the-looked-up-directory': parent is a.parent}
+        if c.symbolic:
+            cl['looked-up-the-directory-part'] = Eq(c.p.ghost.get('lookup_path'), b'/d')
         return cl
 
     def observe(self, c, a, out):
